@@ -72,10 +72,12 @@ def scheme_case(mod, name, dim, solid, opts, nsteps=2):
     dts = [1e-5, 2.5e-5, 1e-5]
     sides = {}
     logs = {}
+    from vlib.ref.sph_interp import Prop
+    Prop.C_DIVISION = True    # x/0.0 -> inf/nan like the compiled code
     for side in ('reference', 'compiled'):
         PROGRESS['side'] = side
         buf = io.StringIO()
-        with contextlib.redirect_stdout(buf):
+        with contextlib.redirect_stdout(buf), np.errstate(all="ignore"):
             s = S.make_scheme(cls, dim, solid, opts)
             s.configure_solver(dt=1e-5, tf=1.0, pfreq=100000)
             pas = S.make_particles(dim, solid, name)
